@@ -59,6 +59,32 @@ def KNOWN_D16(sub, case, failure):
     return bool((r is not None and r < 64.0) or (b is not None and b < 1e-12))
 
 
+def d16_diagnostics(cfg, hard, mu, H, so, dt):
+    """Where is the exact plastic increment relative to the floating-point resolution of eqps and to the bracket of the
+    library's root solve?  (checker-side bisection in the increment variable; known finding D16)"""
+    ee_t = elastic_strain(cfg, H, so)
+    ndt = onp.linalg.norm(dev(ee_t))
+    tm = math.sqrt(1.5) * 2 * mu * ndt
+    e0 = float(so[0])
+    g = lambda dd: -(tm - 3 * mu * dd) + hard.flow(e0 + dd) + hard.overstress(dd, dt)
+    hi_ = max((tm - hard.flow(e0)) / (3 * mu), 0.0)
+    dstar = None
+    if hi_ > 0 and g(0.0) < 0 <= g(hi_):
+        lo_ = 0.0
+        for _ in range(400):
+            mid = 0.5 * (lo_ + hi_) if lo_ > 0 else hi_ * 1e-3
+            if g(mid) < 0:
+                lo_ = mid
+            else:
+                hi_ = mid
+            if lo_ > 0 and hi_ / lo_ < 1 + 1e-6:
+                break
+        dstar = hi_
+    width = max((tm - hard.flow(e0)) / (3 * mu), 1e-300)
+    return {'rate': hard.rate, 'increment_over_resolution': None if dstar is None else dstar / (EPS * max(e0, 1e-300)),
+            'increment_over_bracket': None if dstar is None else dstar / width}
+
+
 KNOWN_MATCH = {'D1': KNOWN_D1, 'D16': KNOWN_D16}
 
 SEGS = ['ramp', 'ramp', 'reverse', 'random', 'tiny', 'large', 'hold', 'at_yield', 'random']
@@ -220,29 +246,7 @@ def check(case):
         what = '%s step %d (%s)' % (case['model'], k, kind)
         if not (onp.all(onp.isfinite(sn)) and onp.isfinite(w0) and onp.all(onp.isfinite(p0))):
             f = Failure('finite', '%s: state/energy/stress not finite' % what, **data)
-            # where is the exact plastic increment relative to the floating-point resolution of eqps? (known finding D16)
-            ee_t = elastic_strain(cfg, H, so)
-            ndt = onp.linalg.norm(dev(ee_t))
-            tm = math.sqrt(1.5) * 2 * mu * ndt
-            e0 = float(so[0])
-            g = lambda dd: -(tm - 3 * mu * dd) + hard.flow(e0 + dd) + hard.overstress(dd, dt)
-            hi_ = max((tm - hard.flow(e0)) / (3 * mu), 0.0)
-            dstar = None
-            if hi_ > 0 and g(0.0) < 0 <= g(hi_):
-                lo_ = 0.0
-                for _ in range(400):
-                    mid = 0.5 * (lo_ + hi_) if lo_ > 0 else hi_ * 1e-3
-                    if g(mid) < 0:
-                        lo_ = mid
-                    else:
-                        hi_ = mid
-                    if lo_ > 0 and hi_ / lo_ < 1 + 1e-6:
-                        break
-                dstar = hi_
-            f.data['rate'] = hard.rate
-            f.data['increment_over_resolution'] = None if dstar is None else dstar / (EPS * max(e0, 1e-300))
-            width = max((tm - hard.flow(e0)) / (3 * mu), 1e-300)
-            f.data['increment_over_bracket'] = None if dstar is None else dstar / width
+            f.data.update(d16_diagnostics(cfg, hard, mu, H, so, dt))
             with jax.disable_jit():
                 oe = [onp.asarray(o) for o in raw(np.array(H), np.array(so), dt, pv)]
             f.data['fusion_only'] = bool(all(onp.all(onp.isfinite(o)) for o in oe))
